@@ -27,6 +27,7 @@ MIG = "broker::migrate::MetaStoreMigrate"
 MSRS = "broker::store::MigrationSlotRangeStore"
 
 MUTANTS = [
+    {"name": "free-chunks-released-during-migration", "file": "src/broker/update.rs", "after": "pub fn auto_delete_free_nodes(", "old": "                    return Err(MetaStoreError::MigrationRunning);", "new": "                    debug!(\"migration running\");", "expect": "C01.D5"},
     {"name": "assign-importing-to-src", "file": "src/broker/migrate.rs", "old": "                    .get_mut(meta.dst_chunk_index)\n                    .expect(\"assign_dst_slots\");\n                let migrating_slots = dst_chunk\n                    .migrating_slots\n                    .get_mut(meta.dst_chunk_part)",
      "new": "                    .get_mut(meta.dst_chunk_index)\n                    .expect(\"assign_dst_slots\");\n                let migrating_slots = dst_chunk\n                    .migrating_slots\n                    .get_mut(meta.src_chunk_part)", "expect": "C01.D2:assign_dst_slots"},
     {"name": "limit-drop-importing-push", "file": "src/broker/store.rs", "old": "                            .expect(\"limit_migration\")\n                            .push(importing_slot_range_store);\n", "new": "                            .expect(\"limit_migration\");\n                        let _ = importing_slot_range_store;\n", "expect": "C01.D2"},
@@ -44,6 +45,7 @@ def run(ctx):
     ctx.rule("C01.D2", "twin construction: migrating entry at (src index, src part) and importing entry at (dst index, dst part) with the same ranges and meta, in assign_dst_slots and limit_migration; deferred migrations merged into the source's stable slots")
     ctx.rule("C01.D3", "commit_migration: predicate truth tables (range, epoch/meta, direction), both twins found before the first write, removed importing ranges merged into the same chunk")
     ctx.rule("C01.D4", "who-may-write chunk content: only broker::{store,update,migrate} (lib + bins); query code writes nothing")
+    ctx.rule("C01.D5", "chunk indexes named by migration metas stay valid: every index-shifting operation on ClusterStore.chunks (retain / remove / sort / insert / truncate ...) is unreachable while a migration is running")
     T = _chunktables.extract(ctx, "C01.D1")
     if T is not None:
         tables_rules(ctx, "C01.D1", T)
@@ -52,6 +54,10 @@ def run(ctx):
     _limit(ctx)
     _commit(ctx)
     _who_may_write(ctx)
+    _index_stability(ctx)
+    from .C02 import broker_view_lossless
+    ctx.rule("C01.D6", "served node / peer lists are built without element-dropping operations (truncating adaptors, keyed collections that overwrite)")
+    broker_view_lossless(ctx, "C01.D6")
 
 
 def _side_of(sl):
@@ -333,3 +339,54 @@ def _who_may_write(ctx):
             if eff.summary.get(p, set()) & {"cluster-content", "clusters-map"}:
                 nm = p.rsplit("::", 1)[-1]
                 ctx.check(nm in vetted, "C01.D4", "public-mutator:%s" % nm, site(b), ok="vetted public mutator", bad="new public MetaStore method `%s` writes chunk content: not among the vetted mutators" % nm)
+
+
+SHIFTING = ("retain", "retain_mut", "remove", "swap_remove", "truncate", "drain", "clear", "sort", "sort_by", "sort_by_key", "sort_unstable", "sort_unstable_by", "sort_unstable_by_key",
+            "swap", "reverse", "insert", "dedup", "dedup_by", "dedup_by_key", "pop", "split_off", "rotate_left", "rotate_right", "splice")
+
+
+def _index_stability(ctx):
+    """MigrationMetaStore addresses chunks by position (src_chunk_index / dst_chunk_index): removing or reordering
+    elements of ClusterStore.chunks while a migration exists leaves every remaining meta pointing at another chunk"""
+    from .C10 import _guard_sites, ERR, _variant_index
+    from ..sccp import Ok, Err, UNIT
+    F = ctx.F
+    sites_ = []
+    for b in F.all_bodies(bins=True):
+        if b.is_mock() or "tests::" in b.path or b.kind == "Promoted":
+            continue
+        du = None
+        for bb, t in b.calls():
+            c = callee_decl(t) or callee_of(t) or ""
+            if c.rsplit("::", 1)[-1] not in SHIFTING or not c.startswith(("std::vec::Vec", "alloc::vec::Vec", "std::slice", "core::slice")):
+                continue
+            if "ChunkStore" not in (t.get("atys") or [""])[0]:
+                continue
+            du = du or DefUse(b)
+            sl = du.slice_operand(t["args"][0], deep=False)
+            if ("broker::store::ClusterStore", "chunks") in {(norm(a), n) for a, n in sl.fields}:
+                sites_.append((b, bb, t, c.rsplit("::", 1)[-1]))
+        for bb, i, st in b.assigns():
+            fs = [(norm(a), n) for a, n in place_fields(st["place"])]
+            if fs and fs[-1] == ("broker::store::ClusterStore", "chunks") and any(e == "deref" for e in st["place"]["p"]):
+                sites_.append((b, bb, None, "assign"))
+    if not ctx.floor("C01.D5", "index-shifting operations on ClusterStore.chunks", len(sites_), 1):
+        return
+    for b, bb, t, op in sites_:
+        ctx.analysed(b)
+        key = "%s:%s" % (b.path.split("broker::", 1)[-1], op)
+        guards = _guard_sites(F, b)
+        if not guards:
+            ctx.violation("C01.D5", key, site(b, bb), "chunks.%s shifts chunk positions and %s has no migration-running test: migration metas would name other chunks" % (op, b.path))
+            continue
+
+        def call(interp, bbx, term, argvals):
+            for gb, gt, kind in guards:
+                if gt is term:
+                    if kind == "bool":
+                        return Bool(1)
+                    return Err(Agg(ERR, _variant_index(F, "MigrationRunning"), ()))
+            return None
+        res = Interp(F, b, Oracle(call=call)).run()
+        ctx.check(bb not in res.exec_blocks, "C01.D5", key, site(b, bb), ok="chunks.%s is unreachable while a migration is running" % op,
+                  bad="chunks.%s is reachable while a migration is running: the positions stored in migration metas shift" % op)
